@@ -48,6 +48,15 @@ ROWS = [
     ("C18", "fixed", "fix: Mesh.remove_duplicate_nodes renumbers", "F14",
      "tags-boundary-designates-other-facets/clean_duplicate/*",
      "remove_duplicate_nodes kept boundary index arrays although merging vertices renumbers the facets"),
+    ("C17", "fixed", "fix: decoding boundaries from cell data", "F10",
+     "R1-orientation-differs/meshio-formats/*",
+     "_decode_cell_data sorted facets but not their owner cells: orientations scrambled after vtk/vtu/msh round trips, plain interior boundaries came back with arbitrary flags"),
+    ("C17", "fixed", "fix: Mesh.from_dict reads tag index arrays", "F15",
+     "R1-save-raised/after-json-load/*",
+     "from_dict turned an empty named boundary/subdomain into a float64 array; saving the loaded mesh raised IndexError"),
+    ("C17", "fixed", "fix: dictionary/JSON and npz forms keep", "F9",
+     "R1-orientation-differs/dict-json-npz/*",
+     "to_dict/JSON/save_npz stored oriented boundaries as plain index lists: orientation flags lost"),
     ("C18", "known", None, "K1",
      "conforming-hanging-node-or-hole/split/MeshHex1",
      "MeshHex1.to_meshtet on a mesh whose hexahedra do not all use the same local orientation (e.g. a file mesh; any of the 24 rotations of the reference numbering is admissible): the fixed 6-tetrahedra template cuts a shared quadrilateral face along different diagonals from its two sides, the tetrahedral mesh is not conforming"),
